@@ -162,10 +162,14 @@ func libCover(name string, opts []cat.Opts, cb bool, q, t, faults int) coverPlan
 
 // pathsCover: tiny random catalogs explored WITHOUT a view: the tree of all histories, every one
 // of them replayed (path-sensitive defects: graph positions, leftovers of a rollback).
-func pathsCover(opts []cat.Opts, q, t, faults int) coverPlan {
+func pathsCover(opts []cat.Opts, q, t, faults int, tw ...func(*fam.Features)) coverPlan {
 	return coverPlan{name: "all-paths", bounds: Bounds{MaxInv: 2, MaxFaults: faults, FaultKinds: errKinds, NoView: true},
 		cats: func(seed int64, tier string) []*cat.Catalog {
-			return fam.RandomFamily(seed+29, scale(tier, q, t), withOpts(fam.Presets["tiny"], opts))
+			ft := fam.Presets["tiny"]
+			for _, f := range tw {
+				f(&ft)
+			}
+			return fam.RandomFamily(seed+29, scale(tier, q, t), withOpts(ft, opts))
 		}}
 }
 
@@ -359,7 +363,7 @@ func init() {
 		run: genericRun(stagePlan{
 			covers: []coverPlan{
 				randCover("reject", tweak(small, func(f *fam.Features) { f.Types = 2; f.PNamed = 0.05; f.Ctors = 3; f.Decs = 1; f.PInvalid = 0.7 }), rec, 40, 400, 0),
-				pathsCover(rec, 30, 400, 0),
+				pathsCover(rec, 30, 400, 0, func(f *fam.Features) { f.PInvalid = 0.7 }),
 				digraphCover("digraphs-req", "req", rec, 100, 1500),
 				digraphCover("digraphs-grp", "grp", rec, 50, 800),
 				structCover("shadow", fam.Shadow, rec, false, 60, 0, 2, 0),
